@@ -180,6 +180,8 @@ func (in *inst) onWrite(p []byte) {
 	}
 }
 
+type detachedKey struct{}
+
 func (in *inst) Body() {
 	in.log = &handschema.Log{}
 	hs := handschema.New(in.log)
@@ -248,6 +250,14 @@ func (in *inst) Body() {
 		ws.InitFunc = func(ctx context.Context, p transport.InitPayload) (context.Context, *transport.InitPayload, error) {
 			in.log.Add("initfunc:accept")
 			return ctx, &transport.InitPayload{"ok": true}, nil
+		}
+	case "accept-detached":
+		// the context the init function hands back is NOT derived from the request context
+		// (context.WithoutCancel + a value): only the transport's own close path can end
+		// the operations of this connection
+		ws.InitFunc = func(ctx context.Context, p transport.InitPayload) (context.Context, *transport.InitPayload, error) {
+			in.log.Add("initfunc:accept")
+			return context.WithValue(context.WithoutCancel(ctx), detachedKey{}, "x"), nil, nil
 		}
 	case "reject":
 		ws.InitFunc = func(ctx context.Context, p transport.InitPayload) (context.Context, *transport.InitPayload, error) {
@@ -584,6 +594,13 @@ func scenarios(tier string) []*explore.Scenario {
 		for _, script := range []string{"emit-end", "emit-error", "panic"} {
 			add(scen{Proto: proto, Steps: []step{{Kind: "init"}, {Kind: "start", ID: 1}, {Kind: "await-terminated", ID: 1}, {Kind: "start", ID: 1}, {Kind: "await-terminated", ID: 1}}, Script: script, InitFunc: "none"}, &one)
 		}
+		// an init function whose context is detached from the request context: the connection's
+		// own close path must still cancel the operations and fire the close callback
+		for _, script := range []string{"block", "emit-end"} {
+			add(scen{Proto: proto, Steps: []step{{Kind: "init"}, {Kind: "start", ID: 1}}, Script: script, InitFunc: "accept-detached"}, &two)
+			add(scen{Proto: proto, Steps: []step{{Kind: "init"}, {Kind: "start", ID: 1}, {Kind: "close-frame"}}, Script: script, InitFunc: "accept-detached"}, &one)
+		}
+		add(scen{Proto: proto, Steps: []step{{Kind: "init"}, {Kind: "start", ID: 1}, {Kind: "stop", ID: 1}, {Kind: "await-cancel", ID: 1}}, Script: "block", InitFunc: "accept-detached"}, &one)
 		// two operations emitting on one connection: every frame carries its own operation's data
 		for _, script := range []string{"emit-end", "emit2-end"} {
 			add(scen{Proto: proto, Steps: []step{{Kind: "init"}, {Kind: "start", ID: 1}, {Kind: "start", ID: 2}}, Script: script, InitFunc: "none"}, &two)
